@@ -13,7 +13,7 @@ From Verif Require Import lib.Int64 model.RemoteRead.
 Import ListNotations.
 Open Scope Z_scope.
 
-Inductive obs := ObsOk (l : list series) | ObsErrLimit | ObsErrOther | ObsSkip.
+Inductive obs := ObsOk (l : list series) | ObsErrLimit | ObsErrInvalid | ObsErrOther | ObsSkip.
 
 (* a Seek probe on one series of the SAMPLES client (concreteSeriesIterator): the series'
    samples as obtained with Next alone, the number of Next calls before the Seek, the Seek
@@ -38,7 +38,14 @@ Record case := mkCase {
   c_qchunked : bool;           (* response type of the client underneath *)
   c_mnames : list str;         (* label names of the user's matchers *)
   c_querier : obs;
-  c_probes : list probe
+  c_probes : list probe;
+  (* oracle (unicode/utf8.ValidString, tabulated by the harness): some series of the response
+     carries a label name, label value or metric name that is invalid under the UTF-8 naming
+     scheme (empty or not valid UTF-8).  FromQueryResult (validateLabelsAndMetricName) then
+     refuses the whole SAMPLES response; a name that is merely not "legacy" (dots, dashes,
+     spaces, non-ASCII letters, leading digits) must be accepted.  The streamed client does not
+     validate. *)
+  c_bad : bool
 }.
 
 Definition chunk_eqb (a b : chunk) : bool :=
@@ -62,7 +69,8 @@ Fixpoint frames_eqb (a b : list frame) : bool :=
 (* model vs implementation, exactly (order of series, split points of frames, samples) *)
 Definition agree_sampled (c : case) : bool :=
   match sampled_path (c_limit c) (c_ext c) (c_sort c) (c_direct c), c_sampled c with
-  | Ok l, ObsOk l' => serieslist_eqb l l'
+  | Ok l, ObsOk l' => negb (c_bad c) && serieslist_eqb l l'
+  | Ok _, ObsErrInvalid => c_bad c            (* validateLabelsAndMetricName, after the limit check *)
   | ErrLimit, ObsErrLimit => true
   | _, _ => false
   end.
@@ -84,7 +92,8 @@ Definition agree_querier (c : case) : bool :=
   | o =>
       match querier_path (c_qchunked c) (c_limit c) (c_maxbytes c) (c_ext c) (c_mnames c) (c_sort c)
                          (c_mint c) (c_maxt c) (c_direct c) (c_chunks c), o with
-      | Ok l, ObsOk l' => serieslist_eqb l l'
+      | Ok l, ObsOk l' => (c_qchunked c || negb (c_bad c)) && serieslist_eqb l l'
+      | Ok _, ObsErrInvalid => negb (c_qchunked c) && c_bad c
       | ErrLimit, ObsErrLimit => true
       | _, _ => false
       end
@@ -122,6 +131,10 @@ Definition holds_sampled (c : case) : bool :=
   if (0 <? c_limit c) && (c_limit c <? total_samples (c_direct c)) then
     match c_sampled c with ObsErrLimit => true | _ => false end
   else
+  if c_bad c then
+    (* a response with labels invalid under the UTF-8 scheme is refused as a whole (by design) *)
+    match c_sampled c with ObsErrInvalid => true | _ => false end
+  else
     match c_sampled c with
     | ObsOk l => serieslist_eqb (canon l) (expected c)
     | _ => false
@@ -140,6 +153,8 @@ Definition holds_querier (c : case) : bool :=
   | o =>
       if negb (c_qchunked c) && (0 <? c_limit c) && (c_limit c <? total_samples (c_direct c)) then
         match o with ObsErrLimit => true | _ => false end
+      else if negb (c_qchunked c) && c_bad c then
+        match o with ObsErrInvalid => true | _ => false end
       else
         match o with
         | ObsOk l => serieslist_eqb (canon l) (canon (c_direct c))
